@@ -20,11 +20,23 @@ from vlib import core, e2e
 MODS = ['S4V.Props.CliSpec']
 GEN = ['CliTables']
 LEVEL_NOTE = ("Proved over the model S4V.Model.Cli of process_dt / string_wdhms_to_duration / cli_process_args whose tables (76 pattern rows, the regex pieces and "
-              "their (missing) anchors, the time-zone name map) are regenerated from s4.rs / datetime.rs on every run: every grammar value of every row parsed by "
-              "its own row denotes the documented instant (bare date = 00:00:00, zone-less = --tz-offset), '+N' = N seconds in the --tz-offset zone, the relative "
-              "forms sum their units with the sign, '-a X -b @+D' = '-a X -b X+D', both-'@' / after>before / ambiguous zone are rejected. Tied to the code by the "
-              "H2 evaluation mode of the real binary (same requests to both sides) and by the --summary lines and exit status of real runs. The rejection clause "
-              "for arbitrary garbage is false (finding F5) and is kept as a decided counterexample plus the anchored partial theorem.")
+              "their anchors, the time-zone name map) are regenerated from s4.rs / datetime.rs on every run. ABSOLUTE FORMS, FOR ALL VALUES (C14_abs, "
+              "S4V/Props/CliSpec.lean + S4V/Lemmas/CliAbs.lean): for every one of the 76 generated rows (C14_abs_rows_covered: all 76 satisfy the decidable per-row "
+              "condition RowOk, none is left to a representative) and EVERY value of the row's grammar - year 0000..9999 (four digits), a valid calendar date, hour "
+              "<= 23, minute <= 59, second <= 60 (60 = leap-second reading), %3f / %6f any three / six digits, numeric zone with sign + - or U+2212, hours <= 23, "
+              "minutes <= 59 written +HHMM or +HH:MM (and for %#z also +HH, Z, z), zone name = any name the generated table maps to a non-empty offset, %s any "
+              "non-empty digit string <= 8210266790399 - and every --tz-offset strictly inside +-24h, the row's own attempt returns the instant computed from the "
+              "calendar arithmetic of S4V.Model.Time (not from the interpreter): explicit zone (numeric or named) wins (C14_abs_zone_wins), zone-less is read at "
+              "--tz-offset (C14_abs_zoneless), a bare date means 00:00:00, '+N' = N seconds in the --tz-offset zone, the instant of ':60' is that of the next second "
+              "(C14_abs_instant). The text is rendered generically from the row's own pattern items; the proof unfolds the generated rows and zone table (rows_ok, "
+              "tzTable_ok). Every such value is accepted by process_dt as a whole (C14_abs_accepted). NO-STEAL, FOR ALL VALUES (C14_no_steal, C14_no_steal_rows): for "
+              "the rows at positions 0, 1, 15, 16, 30, 31, 57, 58, 72, 73, 74 (the zone-less forms of the help text, with and without .%3f, and the three bare dates) "
+              "no earlier row reads any of their values, so process_dt as a whole returns the documented instant; for the other 65 rows (zoned forms, .%6f, +%s) an "
+              "earlier row may read the value and agreement with it is decided on representative values only (C14_no_steal_repr, 15 rows) - a general proof is not done "
+              "(interface: C14_abs_processDt). The relative forms sum their units with the sign for every string of the grammar (C14_rel), '-a X -b @+D' = '-a X -b X+D' "
+              "(C14_at), both-'@' / after>before / ambiguous zone are rejected, every string outside the relative grammar is refused by the relative branch "
+              "(C14_reject_garbage: the unanchored match of finding F5 is repaired; a repeated unit is still accepted, last occurrence wins, C14_rel_lastwins / F5b). Tied to the code by the H2 evaluation mode of the real binary (same requests to both sides) and "
+              "by the --summary lines and exit status of real runs.")
 ASSUME = ["chrono 0.4.40 parse_from_str / Parsed resolution / TimeDelta limits, the regex crate on REGEX_DUR_OFFSET (leftmost-first, last repetition of a named "
           "group wins, \\d = Unicode Nd) and Rust char::is_whitespace are modelled, not verified (validated by the H2 correspondence only)",
           "char::is_alphabetic is modelled as ASCII letters (argued equivalent for process_dt in S4V/Model/Cli.lean; exercised by mutants with non-ASCII letters)",
